@@ -119,7 +119,7 @@ pub fn huf_weights(fse_desc: bool) -> Vec<u8> {
         zmodel::huf::complete(&h).unwrap()
     }
 }
-fn weights_dist(head: &[u8]) -> (Vec<i16>, u8) {
+pub fn weights_dist(head: &[u8]) -> (Vec<i16>, u8) {
     // distribution over weight values 0..=max for the FSE-compressed description, log 6: every weight that
     // occurs gets at least 2 so that no state of it needs zero bits
     let maxw = *head.iter().max().unwrap() as usize;
